@@ -5,7 +5,8 @@ Hypothesis. A fault-free reference run numbers EVERY call of the user's rhs, Jac
 (E calls) and records, inside each call, how many samples were committed at that moment. Then for every k in 1..E
 (all of them; in the quick tier at most 160 per configuration, evenly spread and always including the first and last
 ten) the run is repeated with a one-shot fault at call k, drawn from {custom Exception subclass, RuntimeError,
-ZeroDivisionError, KeyboardInterrupt} (ValueError / LinAlgError are the integrators' internal retry protocol).
+ZeroDivisionError, KeyboardInterrupt, a FailedIntegration raised by user code with a cause of its own}
+(ValueError / LinAlgError are the integrators' internal retry protocol).
 Oracle per crash point:
   the call raises FailedIntegration whose __cause__ IS the injected object (KeyboardInterrupt propagates as itself);
   success is False and the status names the failure;
@@ -43,6 +44,17 @@ class Injected(Exception):
 FAULTS = {"custom": Injected, "runtime": RuntimeError, "zerodiv": ZeroDivisionError, "keyboard": KeyboardInterrupt}
 
 
+def make_fault(kind, msg):
+    """'nested': user code (e.g. a callback driving an inner OdeSystem) raises the library's own FailedIntegration, chained
+    to its own cause - still "the original cause" the outer failure has to carry"""
+    if kind == "nested":
+        import desolver as de
+        e = de.exception_types.FailedIntegration(msg)
+        e.__cause__ = RuntimeError("inner cause")
+        return e
+    return FAULTS[kind](msg)
+
+
 @st.composite
 def _config(draw, cap=160):
     method = draw(traj.method_name(weights=[4, 4, 2, 2, 1, 1]))
@@ -58,7 +70,7 @@ def _config(draw, cap=160):
     return dict(part="faults", method=method, dtype="float64", prob=prob, y0=draw(PR.state(prob["shape"])), t0=t0, tf=t0 + direction * L,
                 dt=L / nsteps, rtol=1e-6, atol=1e-6, dense=draw(st.booleans()), callbacks=draw(st.booleans()),
                 events=draw(st.sampled_from([[], [], [0.37], [0.37, 0.62]])), user_jac=draw(st.booleans()),
-                fault=draw(st.sampled_from(["custom", "custom", "runtime", "zerodiv", "keyboard"])), cap=cap)
+                fault=draw(st.sampled_from(["custom", "custom", "runtime", "zerodiv", "keyboard", "nested"])), cap=cap)
 
 
 def parts(tier):
@@ -87,7 +99,7 @@ class Harness(object):
             outer.log.append((kind, n))
             if outer.fault_at is not None and outer.calls == outer.fault_at:
                 outer.fault_at = None
-                outer.fault_obj = FAULTS[case["fault"]]("injected at call {} ({})".format(outer.calls, kind))
+                outer.fault_obj = make_fault(case["fault"], "injected at call {} ({})".format(outer.calls, kind))
                 raise outer.fault_obj
 
         class RHS(object):
@@ -124,7 +136,7 @@ class Harness(object):
             a.method = M.get(case["method"])
             self.a = a
         except BaseException as e:
-            if isinstance(e, (Injected, RuntimeError, ZeroDivisionError, KeyboardInterrupt)) and self.fault_obj is e:
+            if self.fault_obj is e:
                 self.construct_error = e
             else:
                 raise
